@@ -33,6 +33,7 @@ def run(chk):
     r4(chk, prog, m)
     r5(chk, prog, m)
     r6(chk, prog, m)
+    r7_structure(chk, prog, m)
     with chk.shared():
         c11.r7(chk, prog, prog.module("json_object.c"))   # shared: the sign-encoded string length is decoded before use
     chk.undecided_clauses += [
@@ -735,3 +736,117 @@ def _r6_serializer_data(chk, prog, m, rid, announce=False):
             chk.undecided(rid, g.name, sig, g.entry.term.locstr(), und or "no successful path was evaluated")
         else:
             chk.proven(rid, g.name, sig, g.entry.term.locstr(), "same serializer function, own user data block, same delete function")
+
+
+# ---------------------------------------------------------------------------
+# R7 the copy has the source's structure
+class _CopyPE(_EqPE):
+    """json_object_deep_copy_recursive on one scripted container: the shallow-copy callback creates the destination node, the
+    recursive call on a child yields that child's copy, and the destination's add / put operations are recorded"""
+
+    def __init__(self, prog, m, kind, members):
+        super().__init__(prog, m, kind, members, [])
+        self.dst = []          # object: [(key, value)], array: [value]
+        self.bad_call = None
+
+    def _copy_of(self, e):
+        if pe.is_const(e) and e[1] == 0:
+            return None
+        if e[0] == "ptr" and e[1].startswith("copy:"):
+            return e[1][5:]
+        return "?" + repr(e)
+
+    def call_model(self, state, frame, i, args):
+        nm = i.callee
+        if nm is None and len(args) == 5:
+            # the shallow-copy callback
+            if args[0] == ("ptr", "o1", ()) and args[4][0] == "ptr":
+                self.store(state, args[4], ("ptr", "dstobj", ()))
+                return pe.C(1)
+            return None
+        if nm == "json_object_deep_copy_recursive" and len(args) >= 5 and args[0][0] == "ptr" and args[0][1].startswith("c:") and args[4][0] == "ptr":
+            self.store(state, args[4], ("ptr", "copy:" + args[0][1][2:], ()))
+            return pe.C(0)
+        if nm == "json_object_copy_serializer_data":
+            return pe.C(0)
+        if nm in ("json_object_object_add", "json_object_object_add_ex") and args and args[0] == ("ptr", "dstobj", ()):
+            key = self._key_of(args[1])
+            self.dst.append((key if key is not None else "?", self._copy_of(args[2])))
+            return pe.C(0)
+        if nm == "json_object_array_add" and args and args[0] == ("ptr", "dstobj", ()):
+            self.dst.append(self._copy_of(args[1]))
+            return pe.C(0)
+        if nm in ("json_object_array_put_idx", "json_object_array_insert_idx") and args and args[0] == ("ptr", "dstobj", ()) and pe.is_const(args[1]):
+            k = args[1][1] % (1 << 64)
+            if k > 64:
+                self.bad_call = nm
+                return pe.C(-1)
+            if nm == "json_object_array_put_idx":
+                while len(self.dst) <= k:
+                    self.dst.append(None)
+                self.dst[k] = self._copy_of(args[2])
+            else:
+                while len(self.dst) < k:
+                    self.dst.append(None)
+                self.dst.insert(k, self._copy_of(args[2]))
+            return pe.C(0)
+        if nm in ("json_object_put",):
+            return pe.C(1)
+        if nm == "__errno_location":
+            return ("ptr", "errno", ())
+        if nm == "__assert_fail":
+            return "STOP"
+        return super().call_model(state, frame, i, args)
+
+
+def r7_structure(chk, prog, m):
+    from itertools import product
+    rid = "C09.R7"
+    chk.rule(rid, "the copy has the source's structure: json_object_deep_copy_recursive evaluated on scripted arrays of 0..3 elements "
+                  "and objects over the keys a, b (both orders), each child a node or JSON null - the destination receives exactly one "
+                  "entry per source entry, in order, holding the child's copy (null for null), including trailing nulls")
+    f = m.functions.get("json_object_deep_copy_recursive")
+    chk.require(f is not None and not f.is_decl, "json_object_deep_copy_recursive not found")
+    chk.touched(f)
+    n = 0
+    for kind in ("array", "object"):
+        fam = []
+        if kind == "array":
+            for ln in range(0, 4):
+                fam += [list(t) for t in product((None, "n"), repeat=ln)]
+        else:
+            fam = [[]]
+            for ks in (("a",), ("a", "b"), ("b", "a")):
+                fam += [list(zip(ks, vs)) for vs in product((None, "n"), repeat=len(ks))]
+        bad = und = None
+        for src in fam:
+            if kind == "array":
+                members = [None if v is None else ("e%d" % k, "v") for k, v in enumerate(src)]
+                want = [None if v is None else "e%d" % k for k, v in enumerate(src)]
+            else:
+                members = [(k, None if v is None else ("m_" + k, "v")) for k, v in src]
+                want = [(k, None if v is None else "m_" + k) for k, v in src]
+            h = _CopyPE(prog, m, kind, members)
+            try:
+                leaves = h.run(f, [("ptr", "o1", ()), pe.C(0), pe.C(0), pe.C(0), ("ptr", "dstslot", ()), ("ptr", "shallow", ())], pe.State())
+            except Exception as e:
+                und = und or "%s: %s" % (src, e)
+                continue
+            n += 1
+            rets = [lf for lf in leaves if lf.kind == "ret"]
+            if len(rets) != 1 or len(leaves) != 1 or not pe.is_const(rets[0].value) or h.bad_call or \
+                    any(isinstance(x, str) and x.startswith("?") for x in (h.dst if kind == "array" else [v for _, v in h.dst])):
+                und = und or "%s: the evaluation does not end in one concrete return%s" % (
+                    src, (" (calls outside the script: %s)" % ", ".join(sorted(set(h.unknown)))) if h.unknown else "")
+                continue
+            if rets[0].value[1] == 0 and h.dst != want and bad is None:
+                show = lambda L: "[%s]" % ", ".join(("null" if x is None else "copy") if kind == "array" else "%s: %s" % (x[0], "null" if x[1] is None else "copy") for x in L)
+                bad = "the %s %s is copied to %s: the copy is not equal to its source" % (kind, show(want), show(h.dst))
+        sig = kind + " structure"
+        if bad:
+            chk.refuted(rid, f.name, sig, f.entry.term.locstr(), bad)
+        elif und:
+            chk.undecided(rid, f.name, sig, f.entry.term.locstr(), und)
+        else:
+            chk.proven(rid, f.name, sig, f.entry.term.locstr(), "entry by entry on every scripted %s" % kind)
+    chk.floor(rid, n, 15, "scripted containers copied")
